@@ -52,7 +52,7 @@ func preemptVariants() []variant {
 
 var plans = map[string]plan{
 	"C01": {Variants: append(stdVariants("base"), stdVariants("gang")[1], stdVariants("gang")[3], gangSwap), QuickRuns: 400, QuickSecs: 70, ThoroughRuns: 40000, ThoroughSecs: 1500},
-	"C02": {Variants: append(stdVariants("quota"), stdVariants("base")[0], stdVariants("gang")[1], gangSwap), QuickRuns: 400, QuickSecs: 70, ThoroughRuns: 40000, ThoroughSecs: 1500},
+	"C02": {Variants: append(stdVariants("quota"), stdVariants("base")[0], stdVariants("gang")[1], gangSwap, reloadVariants("quota")[0], reloadVariants("quota")[1]), QuickRuns: 400, QuickSecs: 70, ThoroughRuns: 40000, ThoroughSecs: 1500},
 	"C03": {Variants: append(append(stdVariants("base"), stdVariants("gang")...), gangSwap), QuickRuns: 400, QuickSecs: 70, ThoroughRuns: 40000, ThoroughSecs: 1500},
 	"C04": {Variants: append(stdVariants("base"), stdVariants("gang")...), QuickRuns: 400, QuickSecs: 70, ThoroughRuns: 40000, ThoroughSecs: 1500},
 	"C05": {Variants: append(append(append(stdVariants("limits"), stdVariants("quota")[0]), reloadVariants("limits")...), stdVariants("gang")[1], stdVariants("gang")[2]), QuickRuns: 400, QuickSecs: 70, ThoroughRuns: 40000, ThoroughSecs: 1500},
